@@ -43,7 +43,7 @@ def verdict(ids, mod, rem):
 def abs_apply(a, st):
     """Return the abstract result of applying st to a, or None if invalid."""
     op = st['op']
-    if op in ('map', 'fresh', 'cache', 'profile'):
+    if op in ('map', 'fresh', 'cache', 'profile', 'falsy'):
         if op == 'cache' and not a.indexable:
             return None
         return a.clone()
@@ -96,6 +96,10 @@ def abs_apply(a, st):
     if op == 'shuffle':
         if not a.indexable or a.elems is None:
             return None
+        if st.get('shared'):
+            # order drawn from a generator shared with other stages: a
+            # permutation the abstract interpreter does not predict
+            return a.clone(elems=list(a.elems))
         perm = np.arange(a.n)
         np.random.RandomState(st['seed']).shuffle(perm)
         return a.clone(elems=[a.elems[int(p)] for p in perm])
@@ -261,7 +265,7 @@ def gen_par_stage(rng, *, kinds=('prefetch', 'parmap'), backends=('t',),
 
 
 def gen_desc(rng, *, max_n=8, min_n=0, max_up=3, max_down=2, par_kw=None,
-             simple=False, source_kind=None):
+             simple=False, source_kind=None, falsy_p=0.0):
     """Generate a valid description: source, 'u0' map, upstream stages, one
     parallel stage, downstream stages."""
     par_kw = par_kw or {}
@@ -285,6 +289,17 @@ def gen_desc(rng, *, max_n=8, min_n=0, max_up=3, max_down=2, par_kw=None,
                     desc['stages'] += sts
                     a = b
                     break
+        if falsy_p and rng.random() < falsy_p:
+            # some examples become None / 0 / '' / [] / {} / False right before
+            # the parallel stage
+            st = {'op': 'falsy', 'id': 'uf', 'mod': rng.randrange(2, 4),
+                  'rem': rng.randrange(0, 2),
+                  'val': rng.choice(['none', 'none', 'zero', 'empty', 'emptylist',
+                                     'emptydict', 'false'])}
+            b = abs_apply(a, st)
+            if b is not None:
+                desc['stages'].append(st)
+                a = b
         b = abs_apply(a, par)
         if b is None:
             continue
